@@ -460,7 +460,10 @@ class CryptographyEngine(api.CryptographicEngine):
                 "Invalid key bytes for the specified encryption algorithm."
             )
 
-        is_gcm_mode = cipher_mode == enums.BlockCipherMode.GCM
+        # RC4 is a stream cipher: the cipher mode is ignored below, so there
+        # is no GCM (and no authentication tag) with it.
+        is_gcm_mode = cipher_mode == enums.BlockCipherMode.GCM and \
+            encryption_algorithm != enums.CryptographicAlgorithm.RC4
         if not is_gcm_mode and auth_additional_data is not None:
             raise exceptions.InvalidField(
                 'Authenticated encryption additional data is supported '
